@@ -111,6 +111,21 @@ static void run() {
             rp::Damage dm; dm.bad_hdcrc = badh; dm.bad_plcrc = badp;
             run_case({(bool)serial, (bool)mem16, false, rp::encode(f, dm)}, "option-combination");
         }
+    // frames with payloads across 2^16 words / octets (a checksum or size computed with a 16-bit count shows here)
+    for (int serial = 0; serial < 2; serial++) for (int w16 = 0; w16 < 2; w16++) for (uint32_t n : {65535u, 65536u, 65537u, 65560u}) {
+        if (idx++ % a.nshards != a.shard) continue;
+        Bytes pl((size_t)n * (w16 ? 2 : 1));
+        for (size_t i = 0; i < pl.size(); i++) pl[i] = mem_octet((uint32_t)i, 9 + n);
+        rp::Frame f = rp::make_request(true, true, w16, (uint16_t)n, 0x100, n, pl);     // serial option bits (both checksums) on either transport
+        Bytes raw = rp::encode(f);
+        run_case({(bool)serial, (bool)w16, false, raw}, "large-frame");
+        for (size_t pos : {raw.size() - 1, raw.size() - 3, (size_t)16 + 80000u % pl.size(), (size_t)16 + 1, (size_t)16 + (pl.size() & ~(size_t)0xffff) + 1}) {
+            if (pos >= raw.size()) continue;
+            Bytes d = raw; d[pos] ^= 0x10;
+            Case c{(bool)serial, (bool)w16, true, d}; c.kind = "single-bit";
+            run_case(c, "large-frame-corrupted");
+        }
+    }
     // random octet strings and random mutations of valid frames on both transports
     size_t nrand = (T ? 600000 : 60000) / a.nshards;
     for (size_t i = 0; i < nrand && !vp::too_many_failures(); i++) {
